@@ -264,6 +264,7 @@ class Executor(EvalMixin, StmtMixin):
                   'PicklingError': ['PickleError', 'Exception', 'BaseException'],
                   'error': ['OSError', 'Exception', 'BaseException'],
                   'StructError': ['Exception', 'BaseException'],
+                  'ProcessExit': ['BaseException'],       # os._exit(): the process ends (model)
                   'timeout': ['OSError', 'Exception', 'BaseException']}
         if name in stdlib:
             return stdlib[name]
